@@ -1,5 +1,5 @@
 SPECIFICATION Spec
-CONSTANTS MaxNodes = 5
+CONSTANTS MaxNodes = 4
 MaxDepth = 3
 DocMode = FALSE
 Vocab <- VocabList
